@@ -82,10 +82,17 @@ def sanitize (lowered : Str) : Str :=
 
 /-! ## constraints and their fragments -/
 
+/-- `const_value` as `_compile_const` distinguishes it -/
+inductive ConstVal where
+  | bool (b : Bool)                -- `isinstance(const_value, bool)`
+  | null                           -- `const_value is None`
+  | other (s : Str)                -- anything else, carried as `str(const_value)`
+  deriving DecidableEq, Repr
+
 inductive Constraint where
   | req | opt
   | enum (vals : List Str)         -- `allowed_values` (already `str`-ed by `__post_init__`)
-  | const (s : Str)                -- `str(const_value)`
+  | const (v : ConstVal)
   | type (t : Str)
   | regex (p : Str)
   | dir | appendOnly | range | maxLen
@@ -106,7 +113,14 @@ def compileEnum (vals : List Str) : Str :=
   render Gen.enumWrapTpl
     [List.intercalate Gen.enumJoiner (vals.map fun v => render Gen.enumQuoteTpl [escapeLiteral v])]
 
-def compileConst (s : Str) : Str := render Gen.constTpl [escapeLiteral s]
+/-- the text `_compile_const` puts into the literal: OCTAVE spelling of booleans and null, `str()` otherwise -/
+def constText : ConstVal → Str
+  | .bool true => Gen.constTrue
+  | .bool false => Gen.constFalse
+  | .null => Gen.constNull
+  | .other s => s
+
+def compileConst (v : ConstVal) : Str := render Gen.constTpl [escapeLiteral (constText v)]
 
 def lookupStr (k : Str) : List (Str × Str) → Option Str
   | [] => none
@@ -137,10 +151,14 @@ def compileRegex (pat : Str) : Str :=
   let p := rstripChars Gen.regexRstrip (lstripChars Gen.regexLstrip pat)
   if Gen.regexUnsupported.any (fun u => isInfixOf u p) then Gen.regexDegrade
   else match simpleClassMatch p with
-    | some (body, q) => render Gen.regexSimpleTpl [body, if q.isEmpty then Gen.regexDefaultQuantifier else q]
+    | some (body, q) =>
+      if !isInfixOf Gen.regexClassForbidden body then
+        render Gen.regexSimpleTpl [body, if q.isEmpty then Gen.regexDefaultQuantifier else q]
+      else if Gen.regexDotPatterns.contains p then replaceAll Gen.regexDotFrom Gen.regexDotTo p
+      else Gen.regexFinalFragment
     | none =>
-      let r := replaceAll Gen.regexDotFrom Gen.regexDotTo p
-      if r.isEmpty || Gen.regexDegenerate.contains r then Gen.regexDegenerateFragment else r
+      if Gen.regexDotPatterns.contains p then replaceAll Gen.regexDotFrom Gen.regexDotTo p
+      else Gen.regexFinalFragment
 
 /-- calling `self._compile_<m>(constraint)`; `none` = Python raises (attribute missing on a
 constraint of another class). -/
@@ -204,19 +222,44 @@ structure Field where
   chain : Option (List Constraint)       -- `none`: no pattern / `pattern.constraints is None`
   deriving Repr
 
-def Field.ruleName (f : Field) : Str := sanitize f.lowered
+/-- `_sanitize_rule_name(field_name)` -/
+def Field.baseName (f : Field) : Str := sanitize f.lowered
+
+/-- `f"{base_name}-{suffix}"` -/
+def uniqueCandidate (base : Str) (suffix : Nat) : Str := render Gen.schemaUniqueTpl [base, Nat.toDigits 10 suffix]
+
+def nameTaken (used : List Str) (cur : Str) : Bool := used.contains cur || Gen.schemaReservedRuleNames.contains cur
+
+/-- `while rule_name in field_rule_names or rule_name in (…): rule_name = f"{base_name}-{suffix}"; suffix += 1`
+with a bound on the number of iterations (`none` = the bound was too small; it never is, see
+`uniqueName_total`). -/
+def uniqueLoop (used : List Str) (base : Str) : Nat → Nat → Str → Option Str
+  | 0, _, cur => if nameTaken used cur then none else some cur
+  | f + 1, suffix, cur =>
+    if nameTaken used cur then uniqueLoop used base f (suffix + 1) (uniqueCandidate base suffix) else some cur
+
+def uniqueName (used : List Str) (base : Str) : Option Str :=
+  uniqueLoop used base (used.length + Gen.schemaReservedRuleNames.length + 1) Gen.schemaUniqueSuffixStart base
+
+/-- the rule names of the fields, in order (`field_rule_names`) -/
+def assignNames : List Str → List Str → Option (List Str)
+  | [], used => some used
+  | b :: r, used => match uniqueName used b with
+    | some n => assignNames r (used ++ [n])
+    | none => none
 
 def fieldPattern (f : Field) : Option Str :=
   match f.chain with
   | some cs => compileChain cs
   | none => some Gen.schemaNoPattern
 
-def fieldLine (f : Field) : Option Str :=
-  (fieldPattern f).map fun pat => render Gen.schemaFieldRuleTpl [f.ruleName, f.name, pat]
+def fieldLine (f : Field) (ruleName : Str) : Option Str :=
+  (fieldPattern f).map fun pat => render Gen.schemaFieldRuleTpl [ruleName, escapeLiteral f.name, pat]
 
-def fieldLines : List Field → Option (List Str)
-  | [] => some []
-  | f :: r => match fieldLine f, fieldLines r with
+def fieldLines : List Field → List Str → Option (List Str)
+  | [], _ => some []
+  | _ :: _, [] => none
+  | f :: r, n :: ns => match fieldLine f n, fieldLines r ns with
     | some l, some ls => some (l :: ls)
     | _, _ => none
 
@@ -225,13 +268,19 @@ def contentLines (ruleNames : List Str) : List Str :=
   else Gen.schemaWithFields.map (render · [List.intercalate Gen.schemaRefsJoiner ruleNames])
 
 def documentLines (upper : Str) (envelope : Bool) : List Str :=
-  if envelope then Gen.schemaEnvelope.map (render · [upper]) else Gen.schemaNoEnvelope.map (render · [])
+  if envelope then Gen.schemaEnvelope.map (render · [escapeLiteral upper]) else Gen.schemaNoEnvelope.map (render · [])
+
+/-- the schema name as it appears in the header comment -/
+def headerName (name : Str) : Str := Gen.schemaHeaderNameReplacements.foldl (fun acc p => replaceAll p.1 p.2 acc) name
 
 def schemaLines (name upper : Str) (fields : List Field) (envelope : Bool) : Option (List Str) :=
-  (fieldLines fields).map fun fl =>
-    Gen.schemaHeader.map (render · [name]) ++ fl ++ [render Gen.schemaAfterFields []] ++
-      contentLines (fields.map Field.ruleName) ++ [render Gen.schemaAfterContent []] ++
-      documentLines upper envelope ++ Gen.schemaTail.map (render · [])
+  match assignNames (fields.map Field.baseName) [] with
+  | none => none
+  | some names =>
+    (fieldLines fields names).map fun fl =>
+      Gen.schemaHeader.map (render · [headerName name]) ++ fl ++ [render Gen.schemaAfterFields []] ++
+        contentLines names ++ [render Gen.schemaAfterContent []] ++
+        documentLines upper envelope ++ Gen.schemaTail.map (render · [])
 
 /-- `GBNFCompiler().compile_schema(schema, include_envelope)`; `fields` are the items of the
 `schema.fields` dict in order (distinct names); `none` = Python raises. -/
